@@ -21,6 +21,18 @@ def stmts(f):
     return [ast.unparse(s) for s in body_wo_doc(f)]
 
 
+class _NoFloats(ast.NodeTransformer):
+    """float literals are tuning constants the property does not depend on (dropout cap ...): not part of the tie"""
+
+    def visit_Constant(self, node):
+        return ast.copy_location(ast.Name(id="CONST", ctx=ast.Load()), node) if isinstance(node.value, float) else node
+
+
+def stmts_nofloat(f):
+    import copy
+    return [ast.unparse(ast.fix_missing_locations(_NoFloats().visit(copy.deepcopy(s)))) for s in body_wo_doc(f)]
+
+
 def strlist(name, items):
     return "Definition %s : list string :=\n  %s.\n" % (name, clist([cstr(x) for x in items]))
 
@@ -72,7 +84,7 @@ def c12_gen():
         fail("Pose.pass_through_methods is not a set of string literals")
     out.append(strlist("pass_through_methods", sorted(e.value for e in pt[0].value.elts)))
     out.append(strlist("pose_getattr", stmts(fn(pc, "__getattr__"))))
-    for m in ("bbox", "copy", "frame_dropout_uniform", "frame_dropout_normal"):
+    for m in ("bbox", "copy", "frame_dropout_uniform", "frame_dropout_normal", "focus", "normalize", "normalize_distribution"):
         out.append(strlist("pose_" + m, stmts(fn(pc, m))))
     w = fn(pc, "write")
     checks = []
@@ -138,7 +150,7 @@ def c12_gen():
     out.append(natlist("points_dims", const_tuple(pd[0].value, "POINTS_DIMS")))
     pb = cls(tb, "PoseBody")
     for m in ("slice_step", "select_frames", "frame_dropout_given_percent", "frame_dropout_uniform", "frame_dropout_normal"):
-        out.append(strlist("body_" + m, stmts(fn(pb, m))))
+        out.append(strlist("body_" + m, stmts_nofloat(fn(pb, m))))
     # ---- numpy/pose_body.py
     tn = parse("numpy/pose_body.py")
     nb = cls(tn, "NumPyPoseBody")
